@@ -10,11 +10,13 @@ import (
 // Tracks, for integer locals, a set of expressions each of which the local is
 // known not to exceed (or, after a clamp to zero, not to exceed unless that
 // expression is negative, in which case the local is 0). Recognised shapes only:
-//   x := E / x = E                      UB(x) = {E} ∪ UB(E)
-//   x = min(A, B, ...)                  UB(x) = {A, B, ...} ∪ their UBs
-//   if B < x { x = B }  (or x > B)      UB(x) ∪= {B} ∪ UB(B)        (min idiom)
-//   if x < 0 { x = 0 }                  UB(x) unchanged              (clamp)
-//   if A+x >= C { x = C - A }           UB(x) ∪= {C - A}             (tail idiom)
+//
+//	x := E / x = E                      UB(x) = {E} ∪ UB(E)
+//	x = min(A, B, ...)                  UB(x) = {A, B, ...} ∪ their UBs
+//	if B < x { x = B }  (or x > B)      UB(x) ∪= {B} ∪ UB(B)        (min idiom)
+//	if x < 0 { x = 0 }                  UB(x) unchanged              (clamp)
+//	if A+x >= C { x = C - A }           UB(x) ∪= {C - A}             (tail idiom)
+//
 // Any other assignment to x forgets what was known. Integer conversions are
 // transparent. Nothing is assumed about shapes that are not recognised.
 type ubState map[string]map[string]bool
